@@ -9017,7 +9017,7 @@ class SVG(Group):
 
         # Semiparse the nodes. All nodes are given in iterparse ordering with start-ns, start, and end.
         # Use values are inlined.
-        def semiparse(nodes):
+        def semiparse(nodes, active=()):
             for elem, children in nodes:
                 if children is None:
                     yield None, "start-ns", elem
@@ -9026,7 +9026,7 @@ class SVG(Group):
                 if tag.startswith("{http://www.w3.org/2000/svg"):
                     tag = tag[28:]  # Removing namespace. http://www.w3.org/2000/svg:
                 yield tag, "start", elem
-                yield from semiparse(children)
+                yield from semiparse(children, active)
                 if SVG_TAG_USE == tag:
                     url = None
                     semiattr = elem.attrib
@@ -9034,9 +9034,12 @@ class SVG(Group):
                         url = semiattr[XLINK_HREF]
                     if SVG_HREF in semiattr:
                         url = semiattr[SVG_HREF]
-                    if url is not None:
+                    if url is not None and url[1:] not in active:
+                        # A reference to what is already being instantiated would never end.
                         try:
-                            yield from semiparse([event_defs[url[1:]]])
+                            yield from semiparse(
+                                [event_defs[url[1:]]], active + (url[1:],)
+                            )
                         except KeyError:
                             pass  # Failed to find link.
                 yield tag, "end", elem
@@ -9092,7 +9095,7 @@ class SVG(Group):
             SVG element parsing parses the job compiling any parsed elements into their compiled object forms.
             """
             if event == "start":
-                stack.append((context, values))
+                stack.append((context, values, width, height))
                 if (
                     not parse_display_none
                     and SVG_ATTR_DISPLAY in values
@@ -9197,146 +9200,164 @@ class SVG(Group):
                     and values[SVG_ATTR_DISPLAY].lower() == SVG_VALUE_NONE
                 ):
                     continue  # If the attributes flag our values to display=none, stop rendering.
-                if SVG_NAME_TAG == tag:
-                    # The ordering for transformations on the SVG object are:
-                    # explicit transform, parent transforms, attribute transforms, viewport transforms
-                    s = SVG(values)
+                try:
+                    if SVG_NAME_TAG == tag:
+                        # The ordering for transformations on the SVG object are:
+                        # explicit transform, parent transforms, attribute transforms, viewport transforms
+                        s = SVG(values)
 
-                    if width is None:
-                        # If a dim was not provided but a viewbox was, use the viewbox dim as physical size, else 1000
-                        width = (
-                            s.viewbox.width if s.viewbox is not None else 1000
-                        )  # 1000 default no information.
-                    if height is None:
-                        height = s.viewbox.height if s.viewbox is not None else 1000
+                        if width is None:
+                            # If a dim was not provided but a viewbox was, use the viewbox dim as physical size, else 1000
+                            width = (
+                                s.viewbox.width if s.viewbox is not None else 1000
+                            )  # 1000 default no information.
+                        if height is None:
+                            height = s.viewbox.height if s.viewbox is not None else 1000
 
-                    s.render(ppi=ppi, width=width, height=height, viewbox=s.viewbox)
-                    width, height = s.width, s.height
-                    if s.viewbox is not None:
+                        s.render(ppi=ppi, width=width, height=height, viewbox=s.viewbox)
+                        width, height = s.width, s.height
+                        if s.viewbox is not None:
+                            try:
+                                if s.height == 0 or s.width == 0:
+                                    raise ZeroDivisionError
+                                viewport_transform = s.viewbox_transform
+                            except ZeroDivisionError:
+                                # The width or height was zero.
+                                # https://www.w3.org/TR/SVG11/struct.html#SVGElementWidthAttribute
+                                # "A value of zero disables rendering of the element."
+                                if root is None:
+                                    return s  # No more parsing will be done.
+                                # Embedded, only this element and its content is disabled.
+                                values[SVG_ATTR_DISPLAY] = SVG_VALUE_NONE
+                                continue
+
+                            if SVG_ATTR_TRANSFORM in values:
+                                # transform on SVG element applied as if svg had parent with transform.
+                                values[SVG_ATTR_TRANSFORM] += " " + viewport_transform
+                            else:
+                                values[SVG_ATTR_TRANSFORM] = viewport_transform
+                            values["viewport_transform"] = values[SVG_ATTR_TRANSFORM]
+                            width, height = s.viewbox.width, s.viewbox.height
+                        if context is None:
+                            stack[-1] = (context, values, width, height)
+                        if context is not None:
+                            context.append(s)
+                        context = s
+                    elif SVG_TAG_GROUP == tag:
+                        s = Group(values)
+                        if context is not None:
+                            context.append(s)
+                        context = s
+                        s.render(ppi=ppi, width=width, height=height)
+                    elif SVG_TAG_DEFS == tag:
+                        s = Group(values)
+                        context = s  # Non-Rendered
+                        s.render(ppi=ppi, width=width, height=height)
+                    elif SVG_TAG_CLIPPATH == tag:
+                        clip += 1
+                        s = ClipPath(values)
+                        context = s  # Non-Rendered
+                        s.render(ppi=ppi, width=width, height=height)
+                    elif SVG_TAG_USE == tag:
+                        use += 1
+                        s = Use(values)
+                        if SVG_ATTR_TRANSFORM in s.values:
+                            # Update value in case x or y applied.
+                            values[SVG_ATTR_TRANSFORM] = s.values[SVG_ATTR_TRANSFORM]
+                        if SVG_ATTR_X in values:
+                            del values[SVG_ATTR_X]
+                        if SVG_ATTR_Y in values:
+                            del values[SVG_ATTR_Y]
+                        if SVG_ATTR_WIDTH in values:
+                            del values[SVG_ATTR_WIDTH]
+                        if SVG_ATTR_HEIGHT in values:
+                            del values[SVG_ATTR_HEIGHT]
+                        if context is not None:
+                            context.append(s)
+                        context = s
+                        if SVG_ATTR_ID in attributes and root is not None and use == 1:
+                            root.objects[attributes[SVG_ATTR_ID]] = s
+                    elif SVG_TAG_PATTERN == tag:
+                        s = Pattern(values)
+                        context = s  # Non-rendered
+                        s.render(ppi=ppi, width=width, height=height)
+                    elif tag in (
+                        SVG_TAG_PATH,
+                        SVG_TAG_CIRCLE,
+                        SVG_TAG_ELLIPSE,
+                        SVG_TAG_LINE,  # Shapes
+                        SVG_TAG_POLYLINE,
+                        SVG_TAG_POLYGON,
+                        SVG_TAG_RECT,
+                        SVG_TAG_IMAGE,
+                    ):
+                        parse_error = None
+                        s = None
                         try:
-                            if s.height == 0 or s.width == 0:
-                                return s
-                            viewport_transform = s.viewbox_transform
-                        except ZeroDivisionError:
-                            # The width or height was zero.
-                            # https://www.w3.org/TR/SVG11/struct.html#SVGElementWidthAttribute
-                            # "A value of zero disables rendering of the element."
-                            return s  # No more parsing will be done.
-
-                        if SVG_ATTR_TRANSFORM in values:
-                            # transform on SVG element applied as if svg had parent with transform.
-                            values[SVG_ATTR_TRANSFORM] += " " + viewport_transform
-                        else:
-                            values[SVG_ATTR_TRANSFORM] = viewport_transform
-                        values["viewport_transform"] = values[SVG_ATTR_TRANSFORM]
-                        width, height = s.viewbox.width, s.viewbox.height
-                    if context is None:
-                        stack[-1] = (context, values)
-                    if context is not None:
-                        context.append(s)
-                    context = s
-                elif SVG_TAG_GROUP == tag:
-                    s = Group(values)
-                    if context is not None:
-                        context.append(s)
-                    context = s
-                    s.render(ppi=ppi, width=width, height=height)
-                elif SVG_TAG_DEFS == tag:
-                    s = Group(values)
-                    context = s  # Non-Rendered
-                    s.render(ppi=ppi, width=width, height=height)
-                elif SVG_TAG_CLIPPATH == tag:
-                    s = ClipPath(values)
-                    context = s  # Non-Rendered
-                    s.render(ppi=ppi, width=width, height=height)
-                    clip += 1
-                elif SVG_TAG_USE == tag:
-                    s = Use(values)
-                    if SVG_ATTR_TRANSFORM in s.values:
-                        # Update value in case x or y applied.
-                        values[SVG_ATTR_TRANSFORM] = s.values[SVG_ATTR_TRANSFORM]
-                    if SVG_ATTR_X in values:
-                        del values[SVG_ATTR_X]
-                    if SVG_ATTR_Y in values:
-                        del values[SVG_ATTR_Y]
-                    if SVG_ATTR_WIDTH in values:
-                        del values[SVG_ATTR_WIDTH]
-                    if SVG_ATTR_HEIGHT in values:
-                        del values[SVG_ATTR_HEIGHT]
-                    if context is not None:
-                        context.append(s)
-                    context = s
-                    use += 1
-                    if SVG_ATTR_ID in attributes and root is not None and use == 1:
-                        root.objects[attributes[SVG_ATTR_ID]] = s
-                elif SVG_TAG_PATTERN == tag:
-                    s = Pattern(values)
-                    context = s  # Non-rendered
-                    s.render(ppi=ppi, width=width, height=height)
-                elif tag in (
-                    SVG_TAG_PATH,
-                    SVG_TAG_CIRCLE,
-                    SVG_TAG_ELLIPSE,
-                    SVG_TAG_LINE,  # Shapes
-                    SVG_TAG_POLYLINE,
-                    SVG_TAG_POLYGON,
-                    SVG_TAG_RECT,
-                    SVG_TAG_IMAGE,
-                ):
-                    parse_error = None
-                    s = None
-                    try:
-                        if SVG_TAG_PATH == tag:
-                            # Delayed path parsing, for partial paths.
-                            s = Path(values, pathd_loaded=True)
-                            s.parse(values.get(SVG_ATTR_DATA, ""))
-                        elif SVG_TAG_CIRCLE == tag:
-                            s = Circle(values)
-                        elif SVG_TAG_ELLIPSE == tag:
-                            s = Ellipse(values)
-                        elif SVG_TAG_LINE == tag:
-                            s = SimpleLine(values)
-                        elif SVG_TAG_POLYLINE == tag:
-                            s = Polyline(values)
-                        elif SVG_TAG_POLYGON == tag:
-                            s = Polygon(values)
-                        elif SVG_TAG_RECT == tag:
-                            s = Rect(values)
-                        else:  # SVG_TAG_IMAGE == tag:
-                            s = Image(values)
-                    except ValueError as e:
-                        parse_error = e
-                        if s is None:
-                            # s was not established we continue without it.
+                            if SVG_TAG_PATH == tag:
+                                # Delayed path parsing, for partial paths.
+                                s = Path(values, pathd_loaded=True)
+                                s.parse(values.get(SVG_ATTR_DATA, ""))
+                            elif SVG_TAG_CIRCLE == tag:
+                                s = Circle(values)
+                            elif SVG_TAG_ELLIPSE == tag:
+                                s = Ellipse(values)
+                            elif SVG_TAG_LINE == tag:
+                                s = SimpleLine(values)
+                            elif SVG_TAG_POLYLINE == tag:
+                                s = Polyline(values)
+                            elif SVG_TAG_POLYGON == tag:
+                                s = Polygon(values)
+                            elif SVG_TAG_RECT == tag:
+                                s = Rect(values)
+                            else:  # SVG_TAG_IMAGE == tag:
+                                s = Image(values)
+                        except ValueError as e:
+                            parse_error = e
+                            if s is None:
+                                # s was not established we continue without it.
+                                continue
+                        s.render(ppi=ppi, width=width, height=height)
+                        if reify:
+                            s.reify()
+                        if s.is_degenerate():
                             continue
-                    s.render(ppi=ppi, width=width, height=height)
-                    if reify:
-                        s.reify()
-                    if s.is_degenerate():
+                        if context is not None:
+                            context.append(s)
+                        if parse_error:
+                            # Error was encountered, but s was established and processed.
+                            if on_error == "ignore":
+                                continue
+                            elif on_error == "raise":
+                                raise parse_error
+                            else:  # "stop"
+                                return root
+                    elif tag in (
+                        SVG_TAG_STYLE,
+                        SVG_TAG_TEXT,
+                        SVG_TAG_DESC,
+                        SVG_TAG_TITLE,
+                        SVG_TAG_TSPAN,
+                    ):
+                        # <style>, <text>, <desc>, <title>
                         continue
-                    if context is not None:
-                        context.append(s)
-                    if parse_error:
-                        # Error was encountered, but s was established and processed.
-                        if on_error == "ignore":
-                            continue
-                        elif on_error == "raise":
-                            raise parse_error
-                        else:  # "stop"
-                            return root
-                elif tag in (
-                    SVG_TAG_STYLE,
-                    SVG_TAG_TEXT,
-                    SVG_TAG_DESC,
-                    SVG_TAG_TITLE,
-                    SVG_TAG_TSPAN,
-                ):
-                    # <style>, <text>, <desc>, <title>
+                    else:
+                        s = SVGElement(values)  # SVG Unknown object return as element.
+                        if context is not None:
+                            context.append(s)
+                except (
+                    ValueError,
+                    IndexError,
+                    TypeError,
+                    OverflowError,
+                    ZeroDivisionError,
+                ) as e:
+                    # The attributes of this element are in error, it is not rendered.
+                    if on_error == "raise":
+                        raise e
+                    elif on_error == "stop":
+                        return root
                     continue
-                else:
-                    s = SVGElement(values)  # SVG Unknown object return as element.
-                    if context is not None:
-                        context.append(s)
                 # If no root was established, s is root.
                 if root is None:
                     root = s
@@ -9367,7 +9388,7 @@ class SVG(Group):
                     and values[SVG_ATTR_DISPLAY].lower() == SVG_VALUE_NONE
                 ):
                     # We are in a display=none, do not render this. Pop values and continue.
-                    context, values = stack.pop()
+                    context, values, width, height = stack.pop()
                     continue
                 s = None
                 if tag in (
@@ -9381,11 +9402,25 @@ class SVG(Group):
                     if SVG_ATTR_ID in attributes and root is not None and use == 0:
                         root.objects[attributes[SVG_ATTR_ID]] = s
                 if tag in (SVG_TAG_TEXT, SVG_TAG_TSPAN):
-                    s = Text(values, text=elem.text)
-                    s.render(ppi=ppi, width=width, height=height)
-                    if reify:
-                        s.reify()
-                    if context is not None:
+                    try:
+                        s = Text(values, text=elem.text)
+                        s.render(ppi=ppi, width=width, height=height)
+                        if reify:
+                            s.reify()
+                    except (
+                        ValueError,
+                        IndexError,
+                        TypeError,
+                        OverflowError,
+                        ZeroDivisionError,
+                    ) as e:
+                        # The attributes of this element are in error, it is not rendered.
+                        s = None
+                        if on_error == "raise":
+                            raise e
+                        elif on_error == "stop":
+                            return root
+                    if s is not None and context is not None:
                         context.append(s)
                 elif SVG_TAG_DESC == tag:
                     s = Desc(values, desc=elem.text)
@@ -9437,7 +9472,7 @@ class SVG(Group):
                         except AttributeError:
                             pass
 
-                context, values = stack.pop()
+                context, values, width, height = stack.pop()
             elif event == "start-ns":
                 if elem[0] != SVG_ATTR_DATA:
                     # Rare wc3 test uses a 'd' namespace.
